@@ -28,11 +28,11 @@ for d in $DEMOS; do cp "$d" $CRATE/tests/; TESTS="$TESTS --test $(basename "$d" 
 # helper sub-directories of the demo (e.g. an independent reader module)
 for sd in "$SRC"/demo/*/; do [ -d "$sd" ] && cp -r "$sd" $CRATE/tests/; done
 echo "== demo on clean tree ($CRATE$TESTS)"
-cargo test --offline $REL -p $CRATE $TESTS > /var/tmp/rvx-confirm/$SID.clean.log 2>&1; CLEAN=$?
+cargo test --offline $REL -p $CRATE $TESTS 2>&1 | cat > /var/tmp/rvx-confirm/$SID.clean.log; CLEAN=${PIPESTATUS[0]}
 tail -3 /var/tmp/rvx-confirm/$SID.clean.log
 echo "== apply patch"
 git apply "$SRC/patch.diff" || { echo "PATCH DOES NOT APPLY"; exit 1; }
-cargo test --offline $REL -p $CRATE $TESTS > /var/tmp/rvx-confirm/$SID.mut.log 2>&1; MUT=$?
+cargo test --offline $REL -p $CRATE $TESTS 2>&1 | cat > /var/tmp/rvx-confirm/$SID.mut.log; MUT=${PIPESTATUS[0]}
 grep -E "^test result|panicked|FAILED|failed" /var/tmp/rvx-confirm/$SID.mut.log | head -8
 echo "== suite with patch (demo removed)"
 for d in $DEMOS; do rm -f $CRATE/tests/$(basename "$d"); done
